@@ -18,7 +18,15 @@ use crate::runner::*;
 #[derive(Clone, Debug, Serialize, Deserialize, PartialEq)]
 pub enum HoldPlan {
     /// one explicit schedule
-    Listed { kb_calls: Vec<u32>, disp_calls: Vec<u32>, intervals: Vec<(bool, u32, u32, bool)> },
+    Listed {
+        kb_calls: Vec<u32>,
+        disp_calls: Vec<u32>,
+        intervals: Vec<(bool, u32, u32, bool)>,
+        /// holder crashes: (keyboard?, boundary) — another thread panics while holding the write
+        /// guard at that boundary; the lock is poisoned and free from then on
+        #[serde(default)]
+        crashes: Vec<(bool, u32)>,
+    },
     /// enumerate: every single boundary interval [s,e) for each lock, and every single and
     /// every pair of device-call holds, over the fault-free run's boundaries/calls
     EnumerateAll,
@@ -67,7 +75,7 @@ struct RunOut {
     queue_left: Vec<u8>,
 }
 
-fn mscn(s: &C33Scn, kb_calls: &[u32], disp_calls: &[u32], intervals: &[(bool, u32, u32, bool)], bare: bool, max_ticks: u32) -> MScn {
+fn mscn(s: &C33Scn, kb_calls: &[u32], disp_calls: &[u32], intervals: &[(bool, u32, u32, bool)], crashes: &[(bool, u32)], bare: bool, max_ticks: u32) -> MScn {
     let mut events: Vec<(u32, HostEv)> = vec![];
     let mut k = 0usize;
     for (t, n) in &s.pushes {
@@ -83,6 +91,9 @@ fn mscn(s: &C33Scn, kb_calls: &[u32], disp_calls: &[u32], intervals: &[(bool, u3
     for (is_kb, st, en, wr) in intervals {
         events.push((*st, if *is_kb { HostEv::HoldKb { write: *wr } } else { HostEv::HoldDisp { write: *wr } }));
         events.push((*en, if *is_kb { HostEv::ReleaseKb } else { HostEv::ReleaseDisp }));
+    }
+    for (is_kb, t) in crashes {
+        events.push((*t, if *is_kb { HostEv::PoisonKb } else { HostEv::PoisonDisp }));
     }
     events.sort_by_key(|e| e.0);
     let io = |calls: &[u32]| if bare { IoSpec::Bare } else { IoSpec::Wrapped { hold_calls: calls.to_vec(), hold_write: s.hold_write } };
@@ -228,7 +239,7 @@ fn judge(s: &C33Scn, o: &RunOut, what: &str) -> Option<(String, String)> {
 impl C33 {
     fn run(&self, s: &C33Scn, out: &mut Outcome) -> Vec<Violation> {
         let mut vio: Vec<Violation> = vec![];
-        let base = mscn(s, &[], &[], &[], false, 6000);
+        let base = mscn(s, &[], &[], &[], &[], false, 6000);
         let objs: Vec<_> = match base.srcs.iter().map(|x| assemble_src(x).ok()).collect::<Option<Vec<_>>>() {
             Some(o) => o,
             None => {
@@ -251,29 +262,29 @@ impl C33 {
             return vio;
         }
         let budget = b.ticks + 64 * (n as u32 + 1) + 400;
-        let mut schedules: Vec<(Vec<u32>, Vec<u32>, Vec<(bool, u32, u32, bool)>)> = vec![];
+        let mut schedules: Vec<(Vec<u32>, Vec<u32>, Vec<(bool, u32, u32, bool)>, Vec<(bool, u32)>)> = vec![];
         match &s.plan {
-            HoldPlan::Listed { kb_calls, disp_calls, intervals } => schedules.push((kb_calls.clone(), disp_calls.clone(), intervals.clone())),
+            HoldPlan::Listed { kb_calls, disp_calls, intervals, crashes } => schedules.push((kb_calls.clone(), disp_calls.clone(), intervals.clone(), crashes.clone())),
             HoldPlan::EnumerateAll => {
                 out.bump("probe.enumerated-all-holds");
                 for c in 0..b.kb_calls {
-                    schedules.push((vec![c], vec![], vec![]));
+                    schedules.push((vec![c], vec![], vec![], vec![]));
                 }
                 for c in 0..b.disp_calls {
-                    schedules.push((vec![], vec![c], vec![]));
+                    schedules.push((vec![], vec![c], vec![], vec![]));
                 }
                 // pairs of single-call holds (kb,kb), (disp,disp), (kb,disp) when the call counts are small
                 if b.kb_calls <= 40 {
                     for a in 0..b.kb_calls {
                         for c in a + 1..b.kb_calls {
-                            schedules.push((vec![a, c], vec![], vec![]));
+                            schedules.push((vec![a, c], vec![], vec![], vec![]));
                         }
                     }
                 }
                 if b.disp_calls <= 40 {
                     for a in 0..b.disp_calls {
                         for c in a + 1..b.disp_calls {
-                            schedules.push((vec![], vec![a, c], vec![]));
+                            schedules.push((vec![], vec![a, c], vec![], vec![]));
                         }
                     }
                 }
@@ -281,17 +292,27 @@ impl C33 {
                 if b.ticks <= 64 {
                     for st in 0..b.ticks {
                         for en in st + 1..=b.ticks {
-                            schedules.push((vec![], vec![], vec![(true, st, en, s.hold_write)]));
-                            schedules.push((vec![], vec![], vec![(false, st, en, s.hold_write)]));
+                            schedules.push((vec![], vec![], vec![(true, st, en, s.hold_write)], vec![]));
+                            schedules.push((vec![], vec![], vec![(false, st, en, s.hold_write)], vec![]));
                         }
+                    }
+                }
+                // a holder crash at every boundary, for each lock
+                if b.ticks <= 200 {
+                    for t in 0..=b.ticks {
+                        schedules.push((vec![], vec![], vec![], vec![(true, t)]));
+                        schedules.push((vec![], vec![], vec![], vec![(false, t)]));
                     }
                 }
             }
         }
         let mut refusals = 0u64;
         let mut seen_classes: Vec<String> = vec![];
-        for (i, (kc, dc, iv)) in schedules.iter().enumerate() {
-            let m = mscn(s, kc, dc, iv, false, budget + iv.iter().map(|x| x.2).max().unwrap_or(0));
+        for (i, (kc, dc, iv, cr)) in schedules.iter().enumerate() {
+            let m = mscn(s, kc, dc, iv, cr, false, budget + iv.iter().map(|x| x.2).max().unwrap_or(0));
+            if !cr.is_empty() {
+                out.bump("fired.lock-poison");
+            }
             let o = match run_one(&m, &objs, n) {
                 Ok(o) => o,
                 Err(e) => {
@@ -308,7 +329,7 @@ impl C33 {
             if kbdr_refused_after_ready(&o.recs) || ddr_refused_after_ready(&o.recs) {
                 out.bump("fired.lock-critical");
             }
-            let what = format!("kb-call holds {kc:?}, display-call holds {dc:?}, boundary holds {iv:?}");
+            let what = format!("kb-call holds {kc:?}, display-call holds {dc:?}, boundary holds {iv:?}, holder crashes {cr:?}");
             if let Some((c, d)) = judge(s, &o, &what) {
                 if !seen_classes.contains(&c) {
                     seen_classes.push(c.clone());
@@ -317,7 +338,7 @@ impl C33 {
             }
             // bare twin: the direct SimDevice::Keyboard/Display path must behave like the wrapped one
             if s.bare_twin && kc.is_empty() && dc.is_empty() {
-                let mb = mscn(s, kc, dc, iv, true, m.max_ticks);
+                let mb = mscn(s, kc, dc, iv, cr, true, m.max_ticks);
                 if let Ok(ob) = run_one(&mb, &objs, n) {
                     if ob.received != o.received || ob.shown != o.shown || ob.halted != o.halted {
                         vio.push(Violation { class: "bare-vs-wrapped".into(), step: i as u64, detail: format!("{what}: bare devices gave received {:?} shown {:?}, wrapped devices received {:?} shown {:?}", ob.received, ob.shown, o.received, o.shown) });
@@ -349,7 +370,7 @@ impl Check for C33 {
     }
     fn meta(&self) -> Meta {
         Meta {
-            rule: "Echo programs (GETC/OUT loop, hand-rolled KBSR/DSR polling loop, GETC then PUTS, IN loop) with 1-12 distinct input bytes pushed in bursts at scheduled boundaries; real BufferedKeyboard/BufferedDisplay behind Contended<D>. Lock schedules: holds of the keyboard or display buffer (read or write guard) over boundary intervals, and holds for exactly one device call. For inputs of <= 2 bytes every single boundary interval for each lock, every single-call hold and every pair of single-call holds is enumerated against the fault-free run; longer inputs use random schedules. Oracle per schedule: received == pushed (once, in order), queue drained, shown == emitted, program finishes within the budget after the last release; the fault-free baseline and a bare-device twin must agree. Non-trivial: >=1 device call actually refused because a lock was held.",
+            rule: "Echo programs (GETC/OUT loop, hand-rolled KBSR/DSR polling loop, GETC then PUTS, IN loop) with 1-12 distinct input bytes pushed in bursts at scheduled boundaries; real BufferedKeyboard/BufferedDisplay behind Contended<D>. Lock schedules: holds of the keyboard or display buffer (read or write guard) over boundary intervals, holds for exactly one device call, and holder crashes (a thread panics while holding the write guard at a boundary: the lock is poisoned and free afterwards). For inputs of <= 2 bytes every single boundary interval for each lock, every single-call hold, every pair of single-call holds and a holder crash at every boundary is enumerated against the fault-free run; longer inputs use random schedules. Oracle per schedule: received == pushed (once, in order), queue drained, shown == emitted, program finishes within the budget after the last release; the fault-free baseline and a bare-device twin must agree. Non-trivial: >=1 device call actually refused because a lock was held.",
             components_real: &["BufferedKeyboard", "BufferedDisplay", "std RwLock try_write (real guards held on the same thread)", "OS GETC/OUT/PUTS/IN routines", "Simulator::run"],
             components_stub: &["Contended<D> wrapper (host decision per device call)", "ClockDev (host decision per boundary)", "entropy source"],
             assumptions: &["a guard held on the simulator's own thread makes try_write return WouldBlock exactly as a guard held by another thread would"],
@@ -396,6 +417,7 @@ impl Check for C33 {
                 kb_calls: crate::c16::sorted((0..r.below(5)).map(|_| r.below(200) as u32).collect()),
                 disp_calls: crate::c16::sorted((0..r.below(5)).map(|_| r.below(200) as u32).collect()),
                 intervals,
+                crashes: (0..if r.chance(1, 3) { 1 + r.below(2) } else { 0 }).map(|_| (r.bool(), r.below(600) as u32)).collect(),
             }
         };
         C33Scn { entropy: r.next_u64(), real_traps: r.bool(), program: r.below(4) as u8, keys, pushes, text, plan, hold_write: r.bool(), bare_twin: r.chance(1, 3) }
@@ -415,26 +437,33 @@ impl Check for C33 {
             t.keys.pop();
             c.push(t);
         }
-        if let HoldPlan::Listed { kb_calls, disp_calls, intervals } = &s.plan {
+        if let HoldPlan::Listed { kb_calls, disp_calls, intervals, crashes } = &s.plan {
             for i in 0..kb_calls.len() {
                 let mut k = kb_calls.clone();
                 k.remove(i);
                 let mut t = s.clone();
-                t.plan = HoldPlan::Listed { kb_calls: k, disp_calls: disp_calls.clone(), intervals: intervals.clone() };
+                t.plan = HoldPlan::Listed { kb_calls: k, disp_calls: disp_calls.clone(), intervals: intervals.clone(), crashes: crashes.clone() };
                 c.push(t);
             }
             for i in 0..disp_calls.len() {
                 let mut k = disp_calls.clone();
                 k.remove(i);
                 let mut t = s.clone();
-                t.plan = HoldPlan::Listed { kb_calls: kb_calls.clone(), disp_calls: k, intervals: intervals.clone() };
+                t.plan = HoldPlan::Listed { kb_calls: kb_calls.clone(), disp_calls: k, intervals: intervals.clone(), crashes: crashes.clone() };
                 c.push(t);
             }
             for i in 0..intervals.len() {
                 let mut k = intervals.clone();
                 k.remove(i);
                 let mut t = s.clone();
-                t.plan = HoldPlan::Listed { kb_calls: kb_calls.clone(), disp_calls: disp_calls.clone(), intervals: k };
+                t.plan = HoldPlan::Listed { kb_calls: kb_calls.clone(), disp_calls: disp_calls.clone(), intervals: k, crashes: crashes.clone() };
+                c.push(t);
+            }
+            for i in 0..crashes.len() {
+                let mut k = crashes.clone();
+                k.remove(i);
+                let mut t = s.clone();
+                t.plan = HoldPlan::Listed { kb_calls: kb_calls.clone(), disp_calls: disp_calls.clone(), intervals: intervals.clone(), crashes: k };
                 c.push(t);
             }
         }
